@@ -24,6 +24,12 @@ class StreamNode(ConfigList):
         super().__init__(builder.stages, **kwargs)
         self.builder = builder
 
+    def _get_child_kwargs(self, child=None):
+        # a stream only groups documents, its own "merge, do not replace" mode must not leak into their content
+        ret = super()._get_child_kwargs(child)
+        ret['implicit_delete'] = None
+        return ret
+
     @property
     def stages(self):
         return self.builder.stages
